@@ -105,6 +105,86 @@ class C18Bounded(Bounded):
                 continue
             if got != [want]:
                 fail("native", f"native CIDR expression for {spelling!r}: {got} != {[want]}", spelling)
+        # backends without a native expression: the rendered query, evaluated on address strings, matches exactly the addresses of the
+        # network(s) - whichever way the backend renders the expansion (in-list, startswith operators, wildcard match, regular expression)
+        import re as _re
+
+        class NA(TextQueryTestBackend):
+            cidr_expression = None
+
+        class NB_(NA):
+            convert_or_as_in = False
+
+        class NC(NA):
+            in_expressions_allow_wildcards = False
+
+        class ND(NA):
+            convert_or_as_in = False
+            startswith_expression = endswith_expression = contains_expression = None
+            wildcard_match_expression = "{field}=~/{regex}/"
+            re_escape_escape_char = False
+
+        class NE(NB_):
+            startswith_expression = endswith_expression = contains_expression = None
+
+        ATOM = _re.compile(r'f startswith "([^"]*)"|f="([^"]*)"|f match "([^"]*)"|f in \(([^)]*)\)|f=~/(.*?)/(?= or |\)|$)')
+
+        def q_matches(q, addr):
+            """evaluate a query of the test backend (alternatives joined by or) on one address string; None if a part is not understood"""
+            if ATOM.sub("", q).replace("or", "").strip("() ") != "":
+                return None
+            res = False
+            for m in ATOM.finditer(q):
+                sw, eq, ma, inl, rx = m.groups()
+                sw, eq, ma, inl = [None if x is None else _re.sub(r"\\(.)", r"\1", x) for x in (sw, eq, ma, inl)]          # the test backend escapes some characters of plain values (\:)
+                if sw is not None:
+                    res = res or addr.startswith(sw)
+                elif eq is not None:
+                    res = res or addr == eq
+                elif ma is not None:
+                    res = res or fnmatch.fnmatchcase(addr, ma)
+                elif inl is not None:
+                    res = res or any(fnmatch.fnmatchcase(addr, x) for x in _re.findall(r'"([^"]*)"', inl))
+                else:
+                    res = res or _re.fullmatch(rx, addr) is not None
+            return res
+        tricky4 = ["100.0.0.1", "109.1.1.1", "10.1.20.7", "10.112.5.5", "10.1.4.0", "1.0.0.0", "110.1.2.3", "192.168.1.70", "192.168.17.1", "19.2.168.1", "0.0.0.0", "255.255.255.255", "10.0.0.0", "10.255.255.255", "11.0.0.0", "9.255.255.255",
+                   "172.16.0.1", "172.160.0.1", "172.1.6.0", "172.31.255.255", "172.32.0.0"]
+        tricky6 = ["::1", "::", "abc::", "7fff::1", "8000::", "1::", "2001:db8::1", "2001:db80::1", "2001:db8:1::", "ffff::", "fe80::1"]
+        nets = [["0.0.0.0/0"], ["10.0.0.0/8"], ["10.1.2.0/23"], ["192.168.1.7/32"], ["172.16.0.0/12"], ["0.0.0.0/0", "10.0.0.0/8"], ["10.0.0.0/8", "192.168.1.0/24"], ["128.0.0.0/1"], ["::/0"], ["::/1"], ["::/3"], ["2001:db8::/32"], ["::/0", "2001:db8::/32"]]
+        for nl in nets:
+            if any(str(ipaddress.ip_network(n)) in KNOWN_V6 for n in nl):
+                continue          # (the listed IPv6 networks of the recorded finding are reported by the expansion check above)
+            parsed = [ipaddress.ip_network(n) for n in nl]
+            v6 = parsed[0].version == 6
+            addrs = list(tricky6 if v6 else tricky4)
+            for n in parsed:
+                lo, hi = int(n.network_address), int(n.broadcast_address)
+                mx = 2 ** (128 if v6 else 32) - 1
+                for x in (lo, hi, (lo + hi) // 2, lo - 1, hi + 1):
+                    if 0 <= x <= mx:
+                        addrs.append(str(ipaddress.ip_address(x)) if not v6 else str(ipaddress.IPv6Address(x)))
+            rule = "title: t\nlogsource:\n  category: c\ndetection:\n  s:\n    f|cidr:\n" + "".join(f"      - '{n}'\n" for n in nl) + "  condition: s\n"
+            for X in (NA, NB_, NC, ND, NE):
+                ev += 1
+                nontriv += 1
+                try:
+                    q = X().convert(SigmaCollection.from_yaml(rule))
+                except Exception as e:
+                    fail("non-native", f"backend variant {X.__name__} without native CIDR expression, networks {nl}: {type(e).__name__}: {e}", [X.__name__, nl])
+                    continue
+                if len(q) != 1:
+                    fail("non-native", f"backend variant {X.__name__} without native CIDR expression, networks {nl}: {len(q)} queries {q}", [X.__name__, nl])
+                    continue
+                for a in addrs:
+                    want = any(ipaddress.ip_address(a) in n for n in parsed)
+                    got = q_matches(q[0], a)
+                    if got is None:
+                        fail("non-native-unparsed", f"backend variant {X.__name__}, networks {nl}: query {q[0]!r} not understood by the stand-in's evaluator", [X.__name__, nl])
+                        break
+                    if got != want and (want or not v6):          # IPv6: every member is matched (the property does not ask for exactness there)
+                        fail("non-native", f"backend variant {X.__name__} without native CIDR expression, networks {nl}: query {q[0]!r} {'matches' if got else 'does not match'} the address {a}, which is {'inside' if want else 'outside'}", [X.__name__, nl, a])
+                        break
         # history: the native expression is still used after a negated condition was converted in not-equals mode
         class NB(TextQueryTestBackend):
             cidr_expression = "{field}|{value}|{network}|{prefixlen}|{netmask}"
@@ -131,5 +211,5 @@ class C18Bounded(Bounded):
         if os.environ.get("C18_DUMP_V6"):
             json.dump(sorted(v6_failing), open(os.environ["C18_DUMP_V6"], "w"))
         return {"evaluations": ev, "ipv6_failing_networks": len(v6_failing), "distinct_nontrivial": nontriv, "failures": fails, "failure_counts": seen,
-                "bound": f"IPv4: 33 prefix lengths x {len(bases)} addresses (set equality on integer ranges); IPv6: 129 prefix lengths x {len(groups)} addresses x <= 9 member addresses; 11 native spellings (incl. bare IPv4 / IPv6 addresses), native expression after a negated conversion; 7 invalid strings",
+                "bound": f"{len(nets)} network lists x 5 backend variants without native expression, each query evaluated on <= 31 addresses; IPv4: 33 prefix lengths x {len(bases)} addresses (set equality on integer ranges); IPv6: 129 prefix lengths x {len(groups)} addresses x <= 9 member addresses; 11 native spellings (incl. bare IPv4 / IPv6 addresses), native expression after a negated conversion; 7 invalid strings",
                 "rule": "distinct networks; every network non-trivial", "samples": samples, "exhaustive": False}
